@@ -186,7 +186,7 @@ def parse_tsan(text):
             fr = _frames(sec[1:])
             tops.append(first_repo_frame(fr) or "?")
             harness.append(first_harness_frame(fr) or "?")
-            writes.append("write" in sec[0].lower())
+            writes.append(bool(re.match(r"^(previous )?(atomic )?write", sec[0].strip().lower())))
         while len(tops) < 2:
             tops.append("?")
             harness.append("?")
